@@ -1,4 +1,5 @@
 //! probe: compile ASN.1 from stdin (modules separated by a line `----`) and print the result.
+//! `probe --canon [--no-opaque]`: compile stdin, print the canonical result as JSON (fresh-process baseline of C11).
 //! `probe --compile-stdout [--ts] FILE..`: call compile() with OutputMode::Stdout on the files (C20).
 use std::io::Read;
 use verif_harness::util::*;
@@ -19,6 +20,16 @@ fn main() {
     if let Some(k) = args.iter().position(|a| a == "--c08-worker") {
         // probe --c08-worker FILE START: inputs are the lines of FILE (hex), processed from index START
         verif_harness::props::c08::worker(&args[k + 1], args[k + 2].parse().unwrap_or(0));
+        return;
+    }
+    if args.iter().any(|a| a == "--canon") {
+        // probe --canon [--no-opaque]: compile stdin in this fresh process and print the canonical result (C11)
+        let mut s = String::new();
+        std::io::stdin().read_to_string(&mut s).unwrap();
+        let srcs: Vec<String> = s.split("\n----\n").map(|x| x.to_string()).collect();
+        let cfg = rasn_compiler::prelude::RasnConfig { opaque_open_types: !args.iter().any(|a| a == "--no-opaque"), ..Default::default() };
+        let c = verif_harness::props::c11::canon(&compile_rasn_cfg(&srcs, cfg));
+        println!("{}", serde_json::json!({"generated": c.generated, "warnings": c.warnings}));
         return;
     }
     let mut s = String::new();
